@@ -535,6 +535,39 @@ fn parse_descriptor(d: &str) -> Option<(Vec<u8>, bool)> {
     Some((deep_input(shape, n, closed), closed && DEEP_SHAPES[shape].6 && n <= 50))
 }
 
+/// Runs one descriptor case in a child process whose worker thread has a 2 MiB stack: a stack overflow aborts
+/// the child only and is reported as flag `A`.  Returns (case line, impl line), each with its newline.
+fn run_in_child(d: &str, seed: u64, cases_path: &str) -> (String, String) {
+    let exe = std::env::current_exe().unwrap();
+    let tmp = format!("{}.child", cases_path);
+    std::fs::write(format!("{}.in", tmp), format!("{}\n", d)).unwrap();
+    let st = std::process::Command::new(&exe)
+        .args([&format!("file:{}.in", tmp), &seed.to_string(), "0", &format!("{}.cases", tmp), &format!("{}.impl", tmp)])
+        .env("C17_STACK", (2usize << 20).to_string())
+        .env("C17_CHILD", "1")
+        .stderr(std::process::Stdio::null())
+        .status();
+    let ok = matches!(&st, Ok(x) if x.success());
+    let (c, i) = if ok {
+        (std::fs::read_to_string(format!("{}.cases", tmp)).unwrap_or_default(), std::fs::read_to_string(format!("{}.impl", tmp)).unwrap_or_default())
+    } else {
+        (String::new(), String::new())
+    };
+    for ext in ["in", "cases", "impl"] {
+        let _ = std::fs::remove_file(format!("{}.{}", tmp, ext));
+    }
+    if ok && c.lines().count() == 1 && i.lines().count() == 1 {
+        (c, i)
+    } else {
+        let first = d.split('|').next().unwrap_or(d);
+        let small = parse_descriptor(first).map(|x| x.0).unwrap_or_default();
+        (
+            format!("{}||\n", if small.len() > BIG { first.to_string() } else { dec(&small) }),
+            format!("A|BIG|BIG|||||child process died on a 2 MiB stack: {:?}\n", st.map(|x| x.to_string())),
+        )
+    }
+}
+
 fn library_files() -> Vec<Vec<u8>> {
     let mut out = Vec::new();
     let mut dirs = vec![std::path::PathBuf::from("/repo/vhdl_libraries")];
@@ -630,6 +663,12 @@ fn gen_random(rng: &mut Rng, corpus: &[Vec<u8>]) -> Vec<u8> {
     }
 }
 
+fn emit_to(cases: &mut impl std::io::Write, imp: &mut impl std::io::Write, input: &[u8], rng: &mut Rng, fixed: Option<&str>, label: Option<&str>, clean: bool) {
+    let (c, i) = run_case(input, rng, fixed, label, clean);
+    writeln!(cases, "{}", c).unwrap();
+    writeln!(imp, "{}", i).unwrap();
+}
+
 fn main() {
     let args: Vec<String> = std::env::args().collect();
     if args.len() < 6 {
@@ -675,11 +714,6 @@ fn main() {
             let mut seeder = Rng::new(seed ^ 0xC17);
             seeder.next();
             let mut rng = Rng(seeder.next() ^ seed.rotate_left(32));
-            let mut emit = |input: &[u8], rng: &mut Rng, fixed: Option<&str>, label: Option<&str>, clean: bool| {
-                let (c, i) = run_case(input, rng, fixed, label, clean);
-                writeln!(cases, "{}", c).unwrap();
-                writeln!(imp, "{}", i).unwrap();
-            };
             if let Some(path) = mode.strip_prefix("file:") {
                 let text = std::fs::read_to_string(path).unwrap();
                 for line in text.lines() {
@@ -692,15 +726,21 @@ fn main() {
                     let b = parts.next().unwrap_or("");
                     let _tree = parts.next();
                     let repl = parts.next();
+                    if b.starts_with('@') && std::env::var("C17_CHILD").is_err() {
+                        let (c, i) = run_in_child(line, seed, &cases_path);
+                        write!(cases, "{}", c).unwrap();
+                        write!(imp, "{}", i).unwrap();
+                        continue;
+                    }
                     if b.starts_with('@') {
                         match parse_descriptor(b) {
-                            Some((bytes, clean)) => emit(&bytes, &mut rng, repl, Some(b), clean),
+                            Some((bytes, clean)) => emit_to(&mut cases, &mut imp, &bytes, &mut rng, repl, Some(b), clean),
                             None => panic!("bad descriptor {}", b),
                         }
                         continue;
                     }
                     let bytes: Vec<u8> = b.split(' ').filter(|x| !x.is_empty()).map(|x| x.parse::<u16>().unwrap() as u8).collect();
-                    emit(&bytes, &mut rng, repl, None, false);
+                    emit_to(&mut cases, &mut imp, &bytes, &mut rng, repl, None, false);
                 }
             } else if let Some(k) = mode.strip_prefix("exhaustive") {
                 let k: usize = k.parse().unwrap();
@@ -713,7 +753,7 @@ fn main() {
                             s.push(ALPHABET[x % a]);
                             x /= a;
                         }
-                        emit(&s, &mut rng, None, None, false);
+                        emit_to(&mut cases, &mut imp, &s, &mut rng, None, None, false);
                     }
                 }
             } else if let Some(n) = mode.strip_prefix("deep:") {
@@ -723,41 +763,19 @@ fn main() {
                 let n: usize = n.parse().unwrap();
                 let (k, m) = part.split_once('/').unwrap();
                 let (k, m): (usize, usize) = (k.parse().unwrap(), m.parse().unwrap());
-                let exe = std::env::current_exe().unwrap();
                 for shape in (0..DEEP_SHAPES.len()).filter(|x| x % m == k) {
                     for closed in [true, false] {
                         let d = format!("@deep:{}:{}:{}", shape, n, if closed { "c" } else { "u" });
-                        let tmp = format!("{}.child", cases_path);
-                        std::fs::write(format!("{}.in", tmp), format!("{}\n", d)).unwrap();
-                        let st = std::process::Command::new(&exe)
-                            .args([&format!("file:{}.in", tmp), &seed.to_string(), "0", &format!("{}.cases", tmp), &format!("{}.impl", tmp)])
-                            .env("C17_STACK", (2usize << 20).to_string())
-                            .stderr(std::process::Stdio::null())
-                            .status();
-                        let ok = matches!(&st, Ok(x) if x.success());
-                        let (c, i) = if ok {
-                            (std::fs::read_to_string(format!("{}.cases", tmp)).unwrap_or_default(), std::fs::read_to_string(format!("{}.impl", tmp)).unwrap_or_default())
-                        } else {
-                            (String::new(), String::new())
-                        };
-                        if ok && c.lines().count() == 1 && i.lines().count() == 1 {
-                            write!(cases, "{}", c).unwrap();
-                            write!(imp, "{}", i).unwrap();
-                        } else {
-                            let small = deep_input(shape, n, closed);
-                            writeln!(cases, "{}||", if small.len() > BIG { d.clone() } else { dec(&small) }).unwrap();
-                            writeln!(imp, "A|BIG|BIG|||||child process died on a 2 MiB stack: {:?}", st.map(|x| x.to_string())).unwrap();
-                        }
-                        for ext in ["in", "cases", "impl"] {
-                            let _ = std::fs::remove_file(format!("{}.{}", tmp, ext));
-                        }
+                        let (c, i) = run_in_child(&d, seed, &cases_path);
+                        write!(cases, "{}", c).unwrap();
+                        write!(imp, "{}", i).unwrap();
                     }
                 }
             } else {
                 let corpus = library_files();
                 for _ in 0..n {
                     let s = gen_random(&mut rng, &corpus);
-                    emit(&s, &mut rng, None, None, false);
+                    emit_to(&mut cases, &mut imp, &s, &mut rng, None, None, false);
                 }
             }
             cases.flush().unwrap();
